@@ -467,6 +467,12 @@ def c(ctx):
         seen_split = False
         for st in sts:
             r = _split_site(ctx, sfi, scfg, P, comp, st)
+            if r is None and any(chain(n_) == "%s.%s" % (P, comp) for n_ in ast.walk(st.value)):
+                # derived from the component, but not as split(sep)[k:] of the unmodified component
+                # (e.g. lstrip("/") first: leading empty segments collapse, distinct resources alias)
+                seen_split = True
+                ctx.ob("the %s component is decomposed as split(%r)%s of the unmodified component" % (comp, rfc_sep, "[1:]" if want_drop else ""), False, sfi, st)
+                continue
             ctx.need(r is not None, "set_request_uri: value stored to opt.%s is neither an empty list nor a comprehension over %s.%s.split(..): `%s`" % (opt, P, comp, stmt_text(st, 90)))
             nid = scfg.loc1(st)
             if r[0] == "empty":
@@ -875,3 +881,5 @@ R.seed("C16.e", F_U, "    if \":\" in host and not (host.startswith(\"[\") and h
 R.seed("C16.e", F_U, "        return pseudoparsed.hostname, pseudoparsed.port", "        return pseudoparsed.netloc, pseudoparsed.port", "split keeps brackets and port in the host")
 R.seed("C16.e", F_M, "            hostinfo = hostportjoin(host, port)\n", "            hostinfo = hostportjoin(host)\n", "port dropped when normalising a literal")
 R.seed("C16.e", F_M, "            host = str(ip)\n", "            host = str(host)\n", "literal not normalised through ipaddress")
+
+R.seed("C16.c", "aiocoap/message.py", "                    for x in parsed.path.split(\"/\")[1:]", "                    for x in parsed.path.lstrip(\"/\").split(\"/\")", "all leading slashes stripped: //a and /a collapse")
